@@ -1197,7 +1197,20 @@ def _recreate_style(content, dfxp):
     if 'display-align' in content:
         dfxp_style['tts:displayAlign'] = content['display-align']
 
-    return dfxp_style
+    return _escape_attribute_values(dfxp_style)
+
+
+def _escape_attribute_values(attributes):
+    """The document is serialized without any escaping (the text of the <p>
+    elements is markup assembled by hand), so attribute values have to be
+    escaped here: A&B -> A&amp;B, and the double quote, which delimits the
+    attributes of the hand-written <span> tags.
+    """
+    return {
+        name: escape(value, {'"': '&quot;'}) if isinstance(value, str)
+        else value
+        for name, value in attributes.items()
+    }
 
 
 # TODO - highly cacheable. use WeakValueDict to improve performance
